@@ -25,6 +25,7 @@ def main():
     prop, outdir = sys.argv[1], sys.argv[2]
     ks = sys.argv[3:] or ['1', '2', '3']
     checks = os.environ.get('SEED_CHECKS', prop).split(',')
+    tag = os.environ.get('SEED_TAG', '')          # e.g. 'r2-' for a second round
     for k in ks:
         diff = os.path.join(outdir, 'mut%s.diff' % k)
         demo = os.path.join(outdir, 'demo%s.py' % k)
@@ -68,11 +69,11 @@ def main():
                     meta = {'raw': open(mp).read()[:500]}
             res['meta'] = meta
             caught = any(v['violations'] > 0 for v in res['checks'].values())
-            print('%s-%s confirmed=%s tests=%s demo(mut/clean)=%s/%s caught=%s %s' % (
-                prop, k, res['confirmed'], res['tests_pass'], rc1, rc0, caught,
+            print('%s-%s%s confirmed=%s tests=%s demo(mut/clean)=%s/%s caught=%s %s' % (
+                prop, tag, k, res['confirmed'], res['tests_pass'], rc1, rc0, caught,
                 {c: v['violations'] for c, v in res['checks'].items()}))
             if res['confirmed']:
-                d = os.path.join(VERIF, 'seeded', '%s-%s' % (prop, k))
+                d = os.path.join(VERIF, 'seeded', '%s-%s%s' % (prop, tag, k))
                 os.makedirs(d, exist_ok=True)
                 shutil.copy(diff, os.path.join(d, 'patch.diff'))
                 shutil.copy(demo, os.path.join(d, 'demo.py'))
